@@ -489,6 +489,9 @@ func (s *runtimeState) resolveIngress(r *http.Request, requestPath string) (stri
 	}
 
 	for _, rt := range s.routes {
+		if !servedByIngress(rt) {
+			continue
+		}
 		if !router.MatchPath(requestPath, rt.Path) {
 			continue
 		}
@@ -512,6 +515,13 @@ func (s *runtimeState) resolveIngress(r *http.Request, requestPath string) (stri
 	return "", false
 }
 
+// servedByIngress reports whether the ingress listener may hand requests to
+// rt: outbound and internal routes receive messages only through publish
+// (Admin API / MCP) and are never reachable from ingress.
+func servedByIngress(rt config.CompiledRoute) bool {
+	return rt.ChannelType != config.ChannelOutbound && rt.ChannelType != config.ChannelInternal
+}
+
 func (s *runtimeState) allowedMethodsFor(r *http.Request, requestPath string) []string {
 	if r == nil {
 		return nil
@@ -528,6 +538,9 @@ func (s *runtimeState) allowedMethodsFor(r *http.Request, requestPath string) []
 	var out []string
 
 	for _, rt := range s.routes {
+		if !servedByIngress(rt) {
+			continue
+		}
 		if !router.MatchPath(requestPath, rt.Path) {
 			continue
 		}
